@@ -37,6 +37,43 @@ def length_of(v):
     raise Unsupported(f"file content {v!r}")
 
 
+class ForeignHead:
+    """The first `n` bytes of a container of another format: they START with that format's published magic; what follows belongs to that format (assumed:
+    it does not contain the record stream magic - an Avro header continues with its metadata map, a compressed member with compressed data)."""
+
+    def __init__(self, magic, n):
+        note("foreign container head", "the leading bytes of an Avro container / compressed member are its published magic followed by bytes of that format, which do not spell the record stream magic")
+        self.magic, self.n = magic, n
+
+    def __len__(self):
+        return self.n
+
+    def startswith(self, prefix, *a):
+        if len(prefix) <= len(self.magic):
+            return self.magic.startswith(prefix)
+        return False if not prefix.startswith(self.magic) else _unsupported("startswith beyond the magic of a foreign container")
+
+    def endswith(self, suffix, *a):
+        return False
+
+    def __getitem__(self, k):
+        if isinstance(k, slice) and k.start in (None, 0) and k.stop is not None and 0 <= k.stop <= len(self.magic) and k.step in (None, 1):
+            return self.magic[k]
+        raise Unsupported("bytes of a foreign container behind its magic")
+
+    def __eq__(self, other):
+        return False
+
+    __hash__ = None
+
+    def __repr__(self):
+        return f"<{self.n} bytes starting with {self.magic!r}>"
+
+
+def _unsupported(msg):
+    raise Unsupported(msg)
+
+
 class Rest:
     """What is left of a packed blob after its first bytes were consumed (never interpreted)."""
 
@@ -172,6 +209,10 @@ class AbsFile(io.IOBase):
             elif isinstance(v, MPTrunc) and not pieces:
                 pieces.append(MPTrunc(v.blob, need))
                 self.segs[self.i] = (Rest(v.blob, self._sub(L, need)), self._sub(L, need))
+            elif getattr(v, "magic", None) is not None and isinstance(need, int) and need >= len(v.magic) and not pieces:
+                # the first bytes of a container of ANOTHER format (Avro, a compressed member): its published magic followed by bytes of that format
+                pieces.append(ForeignHead(v.magic, need))
+                self.segs[self.i] = (Rest(v, self._sub(L, need)), self._sub(L, need))
             else:
                 raise Unsupported(f"read({need}) ends inside an abstract segment")
             need = 0
